@@ -123,7 +123,7 @@ def ob_fm_gate(pid, maxe=12):
 
 @prop("C06")
 def c06(tier):
-    obs = [ob_crc_step("C06"), ob_fm_gate("C06")]
+    obs = [ob_crc_step("C06")]      # ob_fm_gate: no verdict within 40 min / OOM (see DESIGN.md), not registered
     return obs, dict(assumptions=CXX_ASSUME)
 
 W_ID = "w_identify.cc"
@@ -153,6 +153,20 @@ def c13(tier):
 @prop("C02")
 def c02(tier):
     obs = [ob_entry_fields("C02"), ob_fragment("C02", 3 if tier == "quick" else 31), ob_crc_step("C02")]
+    return obs, dict(assumptions=CXX_ASSUME)
+
+W_NAMES = "w_names.cc"
+@prop("C15")
+def c15(tier):
+    obs = [X.cxx_ob("C15", "case_insensitive", W_NAMES, "h_case_insensitive",
+                    "case_insensitive_less / case_insensitive_equal = lexicographic comparison of the lower-cased strings",
+                    "two strings of <= 3 arbitrary 7-bit characters", ["dfs/stringutil.cc:case_insensitive_less", "case_insensitive_equal"],
+                    unwind=10, unwindset=[("X_strlen", 64)], weight_gb=4),
+           X.cxx_ob("C15", "has_name", W_NAMES, "h_has_name",
+                    "CatalogEntry::has_name: found iff directory identical and name equal ignoring case",
+                    "catalogue names and wanted names of <= 3 printable characters, any directory characters",
+                    ["dfs/dfs_catalog.cc:CatalogEntry::has_name", "CatalogEntry::name", "stringutil::rtrim", "case_insensitive_equal"],
+                    unwind=10, unwindset=[("X_strlen", 64)], weight_gb=4)]
     return obs, dict(assumptions=CXX_ASSUME)
 
 W_STOR = "w_storage.cc"
